@@ -861,6 +861,7 @@ class TT():
         Raises:
             InvalidArguments: Second operand has to be TT object.
             IncompatibleTypes: First operand should be a TT matrix and second a TT vector.
+            ShapeMismatch: Shapes do not match.
 
         Returns:
             torchtt.TT: the result.
@@ -871,6 +872,8 @@ class TT():
         if not self.__is_ttm or other.is_ttm:
             raise IncompatibleTypes(
                 'First operand should be a TT matrix and second a TT vector.')
+        if self.__N != other.N:
+            raise ShapeMismatch('Shapes do not match.')
 
         return dmrg_matvec(self, other, y0=initial, eps=eps, verb=verb, nswp=nswp, use_cpp=use_cpp)
 
